@@ -125,3 +125,6 @@ def ev_raises(ctx, st, exc):
 
 UNITS.append(Unit("C05", "jsonargparse._formatters:get_env_var", ev_setup, ev_post, ev_raises, expect_cover=("return",),
                   trusted=["str.replace / str.upper evaluated by CPython on the concrete prefixes and dests of the scenario"]))
+
+from contracts.apply_actions import apply_actions_unit  # noqa: E402
+UNITS.append(apply_actions_unit("C05"))
